@@ -401,12 +401,12 @@ def run(ctx):
 CLAIM = {
     'technique': 'parse-cursor typestate with flow-sensitive linear facts (bound before every raw read / advance), '
                  'decoder-contract check, producer guard typestate (non-empty list), class-engine non-zero test before '
-                 'divisions, interval check of table subscripts',
+                 'divisions, interval check of table subscripts, size-pair rule (recorded buffer length <= allocation made on the path, linear facts), own-then-free with callee-keeps summaries',
     'text': 'static analysis: decides necessary conditions C03-a..e of memory safety on file input - every raw read '
             'and cursor advance in the four header parsers is implied by a preceding bound check on the current cursor '
             'value; decoder calls follow the (base+cursor, &cursor, limit) contract with 64-bit limits; a successful '
             'index parse guarantees a non-empty chunk list; file-supplied divisors are tested non-zero; name tables '
-            'are indexed in range for every int. Memory safety as a whole and hangs are NOT decided.',
+            'are indexed in range for every int. Memory safety as a whole and hangs are NOT decided. C03-g/h: a block handed to a callee that keeps it is not freed by the caller; a recorded buffer length never exceeds the block allocated on the same path.',
     'note': 'trusted: clang 14 front end; header buffer size = lead_size + header_length (read_header_from_file); '
             'C20 for the decoder itself',
 }
